@@ -85,6 +85,14 @@ fn make_pool(rng: &mut Rng, ctx: &mut Ctx) -> (Vec<Entry>, Vec<Retry>) {
                 add(&mut pool, m, "pool_decoded_from_all_ones_max_payload", ctx);
             }
         }
+        // (b2) all-zero maximum-length payload: every real field exactly 0.0, every count 0
+        let mut p = vec![0u8; 200];
+        bits::write(&mut p, 0, 12, n as u128);
+        if let Ok(Some(m)) = crate::codec::decode(&crc::frame(&p)) {
+            if m.number().is_some() {
+                add(&mut pool, m, "pool_decoded_from_all_zero_payload", ctx);
+            }
+        }
         // (c) hostile frames decoded
         for _ in 0..2 {
             let (f, _) = gen::wire_frame(rng, n);
